@@ -421,6 +421,10 @@ pub struct CallsScenario {
     /// versions of owner O, callers A and B, stranger S
     pub minors: [u32; 4],
     pub depth: usize,
+    /// bound on simultaneously existing call entries (keeps the space finite)
+    pub max_calls: usize,
+    /// caller serials in use
+    pub serials: Vec<u32>,
 }
 
 impl Scenario for CallsScenario {
@@ -428,7 +432,7 @@ impl Scenario for CallsScenario {
         "calls".into()
     }
     fn params(&self) -> serde_json::Value {
-        json!({"versions_owner_callerA_callerB_stranger": self.minors, "depth": self.depth, "caller_serials": [0, 1]})
+        json!({"versions_owner_callerA_callerB_stranger": self.minors, "depth": self.depth, "caller_serials": self.serials, "max_call_entries": self.max_calls})
     }
     fn prelude(&self) -> Vec<Action> {
         let mut v: Vec<Action> = self.minors.iter().map(|m| connect(*m)).collect();
@@ -452,10 +456,10 @@ impl Scenario for CallsScenario {
             let minor = m.minor(c);
             for s in &svcs {
                 // keep the space finite: at most 3 call entries (pending or aborted-but-unanswered)
-                if m.calls.len() >= 3 && m.svcs.contains_key(s) {
+                if m.calls.len() >= self.max_calls && m.svcs.contains_key(s) {
                     continue;
                 }
-                for serial in [0u32, 1] {
+                for &serial in &self.serials {
                     out.push((send(c, call_function(serial, *s, 5, payload_for(minor, serial as u8))), true));
                     if c == 1 {
                         // CallFunction2 (closes the caller below 1.19)
@@ -463,7 +467,7 @@ impl Scenario for CallsScenario {
                     }
                 }
             }
-            for serial in [0u32, 1] {
+            for &serial in &self.serials {
                 out.push((send(c, abort_function_call(serial)), true));
             }
         }
